@@ -145,6 +145,49 @@ def run_harness(v, variant, exe, args, trace, what):
     return nh, explained
 
 
+def inductive(v, tier, out):
+    """Apalache: the capacity invariant is INDUCTIVE over unbounded counts with the real initial capacity (the typed module is
+    generated from DataArrayOps.tla, so the proof is about the operators TLC and the trace specification use):
+    Init => IndInv, and IndInit /\\ Next => IndInv' from a symbolically generated pre-state.  The code's own copy rule must fail
+    the step (negative control, thorough tier)."""
+    import shutil, subprocess, time
+    mod = "_gen_DataArrayInd"
+    tla = os.path.join(vlib.SPEC, mod + ".tla")
+    rc, o = vlib.run([sys.executable, os.path.join(vlib.ROOT, "tools", "c10_ind_gen.py"), tla], timeout=60)
+    if rc != 0:
+        raise vlib.MachineryError("c10_ind_gen failed: " + o[-2000:])
+    odir = os.path.join(out, "apalache")
+    runs = [("init", "Init", 0, "TRUE", False), ("step", "IndInit", 1, "TRUE", False)]
+    if tier == "thorough":
+        runs.append(("step-code-as-found", "IndInit", 1, "FALSE", True))
+    try:
+        for name, init, length, rule, expect_error in runs:
+            cfg = os.path.join(vlib.SPEC, mod + ".cfg")
+            open(cfg, "w").write("CONSTANTS\n  Cap0 = 1024\n  TsCopyByCursize = %s\nINIT %s\nNEXT Next\nINVARIANT IndInv\n" % (rule, init))
+            t0 = time.time()
+            rc, o = vlib.run(["apalache-mc", "check", "--config=" + cfg, "--init=" + init, "--length=%d" % length, "--inv=IndInv",
+                              "--out-dir=" + odir, tla], timeout=2400, cwd=vlib.SPEC)
+            wall = time.time() - t0
+            ok = "The outcome is: NoError" in o
+            err = "The outcome is: Error" in o
+            if not (ok or err):
+                raise vlib.MachineryError("apalache-mc (%s) gave no verdict (rc %s):\n%s" % (name, rc, o[-2500:]))
+            if ok == expect_error:
+                raise vlib.MachineryError("apalache-mc (%s, TsCopyByCursize=%s): expected %s, got %s\n%s"
+                                          % (name, rule, "a counterexample" if expect_error else "no error", "no error" if ok else "a counterexample", o[-2500:]))
+            v.cov.setdefault("apalache_runs", []).append(
+                {"what": "DataArrayOps.tla operators, Cap0=1024, unbounded counts, 2 ds + 2 ts: %s (TsCopyByCursize=%s)" % (
+                    "Init => IndInv" if length == 0 else "IndInv /\\ Next => IndInv'", rule),
+                 "outcome": "NoError" if ok else "counterexample (expected: negative control)", "wall_s": round(wall, 1)})
+    finally:
+        for f in (tla, os.path.join(vlib.SPEC, mod + ".cfg")):
+            try:
+                os.remove(f)
+            except OSError:
+                pass
+        shutil.rmtree(odir, ignore_errors=True)
+
+
 def arrays_part(v, tier, out):
     """model checking + harness runs (rel, san) + trace validation for the data arrays; returns #histories"""
     v.assumptions.append(
@@ -156,6 +199,7 @@ def arrays_part(v, tier, out):
         "data arrays: allocated size is observed as malloc_usable_size (>= requested; exact under ASan), so a block the allocator "
         "rounded up can hide a shortfall of a few elements on the release build; the ASan build sees it exactly")
     model_check(v, tier)
+    inductive(v, tier, out)
     nh_total = 0
     nhist = 320 if tier == "quick" else 3200
     for variant in ("rel", "san"):
